@@ -238,42 +238,40 @@ func c20(c *Ctx) {
 	// tag ↔ source agreement
 	tagOf := map[*ssa.Function]int64{}
 	var spaceTyp *types.Var
-	eachInstr(acq, func(i ssa.Instruction) {
-		st, ok := i.(*ssa.Store)
-		if !ok {
-			return
+	for _, sb := range p.structBuilds(acq, 2) {
+		var tagF *types.Var
+		var cv int64
+		for fv, v := range sb.Fields {
+			if v == nil {
+				continue
+			}
+			if c, ok := constInt(v); ok && isIntegerType(fv.Type()) {
+				tagF, cv = fv, c
+			}
 		}
-		fa, ok := st.Addr.(*ssa.FieldAddr)
-		if !ok {
-			return
+		if tagF == nil {
+			continue
 		}
-		fv := fieldVar(fa.X.Type(), fa.Field)
-		if cv, ok := constInt(st.Val); ok && fv != nil && isIntegerType(fv.Type()) {
-			spaceTyp = fv
-			// which call feeds the sibling fields of this literal?
-			base := fa.X
-			for _, ref := range *base.Referrers() {
-				if fa2, ok := ref.(*ssa.FieldAddr); ok && fa2 != fa {
-					for _, r2 := range *fa2.Referrers() {
-						if s2, ok := r2.(*ssa.Store); ok {
-							for _, a := range origins(s2.Val) {
-								if ex, ok := a.V.(*ssa.Extract); ok {
-									if cl, ok := ex.Tuple.(*ssa.Call); ok {
-										if cal := staticCallee(cl.Common()); cal != nil {
-											tagOf[cal] = cv
-											// success only under err==nil of that call
-											r.Check(errNilGuarded(st.Block(), cl), "C20.R4", "Acquire success from "+shortName(cal), p.Pos(posOf(st)), "region used only when its allocator returned nil error",
-												"Acquire returns a region although its allocator reported an error")
-										}
-									}
-								}
-							}
+		spaceTyp = tagF
+		// which call feeds the sibling fields of this literal?
+		for fv, v := range sb.Fields {
+			if fv == tagF || v == nil {
+				continue
+			}
+			for _, a := range origins(v) {
+				if ex, ok := a.V.(*ssa.Extract); ok {
+					if cl, ok := ex.Tuple.(*ssa.Call); ok {
+						if cal := staticCallee(cl.Common()); cal != nil {
+							tagOf[cal] = cv
+							// success only under err==nil of that call
+							r.Check(errNilGuarded(sb.At.Block(), cl), "C20.R4", "Acquire success from "+shortName(cal)+" ("+fv.Name()+")", p.Pos(posOf(sb.At)), "region used only when its allocator returned nil error",
+								"Acquire returns a region although its allocator reported an error")
 						}
 					}
 				}
 			}
 		}
-	})
+	}
 	if mmapFn != nil && holder != nil {
 		tm, okm := tagOf[mmapFn]
 		th, okh := tagOf[holder]
